@@ -64,8 +64,14 @@ def run(tier: str, seed: int, workers: int):
 
         random.Random(seed).shuffle(shards)
     acc = pmap_acc(run_c02_shard, shards, workers)
+    from . import c02_manager
+
+    acc.merge(c02_manager.run(tier, seed, workers))
     meta = {
-        "rule": c01.RULE + "; requests of exactly the advertised exclusion bound and exactly the inclusion bound are included",
+        "rule": c01.RULE + "; requests of exactly the advertised exclusion bound and exactly the inclusion bound are included; "
+        "plus, through the real BatteryManager over the fake API, every history of 3 (quick) / 4 (thorough) events + a final request "
+        "over {battery g reports tight / full / excl / normal data, inverter g reports tight / excl / normal data, request 900 / -900 / 250 W} "
+        "on two 1x1 groups: the set_power calls of every admitted request are checked against the data in force at that moment",
         "assumptions": c01.ASSUMPTIONS,
         "exhaustive": True,
         "bounds": {"groups": dist.menus(tier)["ngroups"], "menus": dist.menus(tier)},
@@ -74,6 +80,10 @@ def run(tier: str, seed: int, workers: int):
 
 
 def replay(case: dict):
+    if case.get("driver") == "manager-history":
+        from . import c02_manager
+
+        return c02_manager.replay(case)
     groups, exponent, power = dist.case_from_json(case)
     pairs, res = dist.evaluate(groups, exponent, power)
     out = oracle_c02(groups, exponent, power, pairs, res)
